@@ -64,7 +64,20 @@ pub struct BatchCfg {
     pub tag: String,
 }
 
-fn spawn_worker(cfg: &BatchCfg, start: u64, stride: u64, slot: u64) -> Child {
+/// Runs a worker process makes before it is replaced by a fresh one. What a compilation may depend on
+/// - thread-locals, statics, caches filled by the first compilation of a process - is thereby sampled
+/// many times per batch instead of once per worker.
+pub const WORKER_LIFETIME: u64 = 1500;
+
+/// First run index of the worker process that executes run `index` in a batch with `workers` slots.
+pub fn chunk_start(index: u64, workers: u64) -> u64 {
+    let w = workers.max(1);
+    let slot_first = index % w;
+    let span = WORKER_LIFETIME * w;
+    slot_first + ((index - slot_first) / span) * span
+}
+
+fn spawn_worker(cfg: &BatchCfg, start: u64, end: u64, stride: u64, slot: u64) -> Child {
     let exe = std::env::current_exe().expect("current_exe");
     let scratch = format!("{}/{}-{}-w{}", scratch_base(), std::process::id(), cfg.tag, slot);
     // address-space limit: an allocation blow-up aborts one worker (and is attributed to its run)
@@ -76,7 +89,7 @@ fn spawn_worker(cfg: &BatchCfg, start: u64, stride: u64, slot: u64) -> Child {
         .arg(&cfg.prop)
         .arg(cfg.batch_seed.to_string())
         .arg(start.to_string())
-        .arg(cfg.end.to_string())
+        .arg(end.to_string())
         .arg(stride.to_string())
         .arg(if cfg.audit { "audit" } else { "noaudit" })
         .arg(scratch)
@@ -134,7 +147,8 @@ pub fn run_batch(cfg: &BatchCfg) -> BatchResult {
                 if shared.stop.load(Ordering::SeqCst) {
                     break;
                 }
-                let mut child = spawn_worker(&cfg, next, stride, slot);
+                let chunk_end = (chunk_start(next, stride) + WORKER_LIFETIME * stride).min(cfg.end);
+                let mut child = spawn_worker(&cfg, next, chunk_end, stride, slot);
                 let pid = child.id();
                 let stdout = child.stdout.take().unwrap();
                 let current = Arc::new(AtomicU64::new(u64::MAX));
@@ -249,8 +263,17 @@ pub fn run_batch(cfg: &BatchCfg) -> BatchResult {
                 let status = child.wait();
                 done.store(true, Ordering::SeqCst);
                 let _ = wd.join();
-                if finished || shared.stop.load(Ordering::SeqCst) {
+                if shared.stop.load(Ordering::SeqCst) {
                     break;
+                }
+                if finished {
+                    // this worker's lifetime is over: the next one starts at the first index of the slot past the chunk
+                    let mut n = next;
+                    while n < chunk_end {
+                        n += stride;
+                    }
+                    next = n;
+                    continue;
                 }
                 // the worker died with a run in flight
                 let idx = current.load(Ordering::SeqCst);
